@@ -12,6 +12,8 @@ import Klev.Proofs.RecoverCheck
 import Klev.Proofs.TornAppend
 import Klev.Proofs.LossProofs
 import Klev.Gen.Facts
+import Klev.Proofs.Witness
+import Klev.Proofs.WitnessBytes
 namespace Klev.C06
 
 /-- Sync fsyncs the log and then the index of the head; the old head is fsynced before a new
@@ -69,6 +71,37 @@ theorem synced_survive (l : Log) (hinv : Inv l) (n j : Nat) (hnj : n ≤ j) (idx
   Klev.Loss.synced_survive l hinv n j hnj idx oo hro hrec
 
 end Klev.C06
+
+/-! ### Non-vacuity
+
+Byte level: the messages `Witness.wMs` / `Witness.wBs`. Record level: the witness log
+`Witness.wL` after one more publish of two messages, so that its head (base 8) holds three
+records `[8, 9, 10]` (46 + 38 + 36 bytes: no rollover before the batch). -/
+section NonVacuity
+open Klev Klev.Witness Klev.Loss
+
+example := Klev.C06.synced_prefix_survives_partial ⟨true, true⟩ 0 wMs [0, 0, 0] (some [1, 2, 3]) wMs_enc
+  (Klev.hno_short wMs [0, 0, 0] (by decide))
+example := Klev.C06.synced_survive_batch_loss ⟨true, true⟩ 0 wMs wBs none wMs_enc wBs_enc 50
+  (by rw [wBs_len]; decide)
+
+example := Klev.C06.loss_recovers wL wL_inv 0 none ooRec rfl rfl
+example := Klev.C06.loss_recovers (wL.publish [(60, [9], [9]), (61, [], [])]).1
+  (Klev.publish_step wL wL_inv _).1 1 (some ⟨.v2, []⟩) ooRec rfl rfl
+example := Klev.C06.synced_survive (wL.publish [(60, [9], [9]), (61, [], [])]).1
+  (Klev.publish_step wL wL_inv _).1 1 2 (by decide) none ooRec rfl rfl
+
+-- evaluated: what Sync acknowledged at 0, 1, 2, 3 records in the head; what Open(Recover) makes
+-- of the directory when the head log keeps one / two of its three records
+example : (List.range 4).map (ackAfter (wL.publish [(60, [9], [9]), (61, [], [])]).1) = [8, 9, 10, 11] := by
+  decide
+example : openContent (lossState (wL.publish [(60, [9], [9]), (61, [], [])]).1 1 none) ooRec =
+    some ([0, 1, 2, 4, 5, 6, 8], 9) := by decide
+example : openContent (lossState (wL.publish [(60, [9], [9]), (61, [], [])]).1 2 (some ⟨.v2, []⟩)) ooRec =
+    some ([0, 1, 2, 4, 5, 6, 8, 9], 10) := by decide
+example : openContent (lossState wL 0 none) ooRec = some ([0, 1, 2, 4, 5, 6], 8) := by decide
+
+end NonVacuity
 
 #print axioms Klev.C06.source_facts
 #print axioms Klev.C06.synced_prefix_survives_partial
